@@ -238,7 +238,7 @@ func TestVerif_C15(t *testing.T) {
 		}
 	}
 	r.Parallel(len(prod), func(l *Local) {
-		if (l.Batch+int(r.Seed))%stride == 0 {
+		if r.visit(l.Batch, stride) {
 			one(l, prod[l.Batch], false)
 		}
 	})
